@@ -90,6 +90,26 @@ pub fn scenario(seed: u64, pool: &[Enr], rep: &mut Report) {
                     stored.push((key, rlp_ref::encode_record(&enr)));
                 }
             }
+            // A bucket that is full may also hold a pending candidate (not a table entry: it is
+            // not to be served), and may lose a member again while the candidate keeps waiting.
+            let in_bucket: Vec<usize> = stored.iter().enumerate().filter(|(_, (k, _))| kb::log2(k, &local) == *d).map(|(i, _)| i).collect();
+            if in_bucket.len() == 16 && pool_i < pool.len() && rng.chance(2, 3) {
+                let key = kb::id_at_distance(&mut rng, &local, *d);
+                let enr = pool[(pool_start + pool_i) % pool.len()].clone();
+                pool_i += 1;
+                let r = rig.discv5.with_kbuckets(|t| t.write().insert_or_update(&kb::key(&key), enr.clone(), kb::status(true, false)));
+                if matches!(r, discv5::kbucket::InsertResult::Pending { .. }) {
+                    rep.count("buckets_with_pending_candidate");
+                    if rng.bool() {
+                        let gone = in_bucket[rng.usize(in_bucket.len())];
+                        let k = stored[gone].0;
+                        if rig.discv5.with_kbuckets(|t| t.write().remove(&kb::key(&k))) {
+                            stored.remove(gone);
+                            rep.count("buckets_with_pending_candidate_and_free_slot");
+                        }
+                    }
+                }
+            }
         }
         let nreq = 6 + rng.usize(10);
         for _ in 0..nreq {
